@@ -81,6 +81,8 @@ def canonical(d, opts):
         return elems if tuples_to_lists else tuple(elems)
     if isinstance(d, Gen):
         return [canonical(x, opts) for x in d.items]
+    if isinstance(d, View):
+        return ('$view', [canonical(x, opts) for x in d.elements()])
     return d
 
 
@@ -98,6 +100,10 @@ def same(got, want):
             else:
                 return False
         return True
+    if isinstance(want, tuple) and len(want) == 2 and want[0] == '$view':
+        if type(got) not in (list, set, tuple):
+            return False
+        return same(list(got), ('$setlist', want[1]))
     if type(got) is not type(want):
         return False
     if isinstance(want, dict):
@@ -141,10 +147,37 @@ class Gen:
         return 'Gen(%r)' % (self.items,)
 
 
+class View:
+    """a dict view (items/keys/values) or a frozenset in a host document: a read-only iterable that is
+    not one of the container kinds the statement names.  Only the second sentence of the property is
+    judged strictly for these (finalisation succeeds and yields plain data); the value may come back
+    as a list (what the code does: any non-sequence iterable is read as a lazy sequence) or as a set."""
+
+    def __init__(self, kind, payload):
+        self.kind = kind            # items | keys | values | frozenset
+        self.payload = payload      # dict, or list of hashable elements for frozenset
+
+    def __repr__(self):
+        return 'View(%r, %r)' % (self.kind, self.payload)
+
+    def elements(self):
+        if self.kind == 'items':
+            return [(k, v) for k, v in self.payload.items()]
+        if self.kind == 'keys':
+            return list(self.payload.keys())
+        if self.kind == 'values':
+            return list(self.payload.values())
+        return list(self.payload)
+
+
 def realize(d):
     """build the actual host value (fresh generators, fresh mutable containers)"""
     if isinstance(d, Gen):
         return (realize(x) for x in d.items)
+    if isinstance(d, View):
+        if d.kind == 'frozenset':
+            return frozenset(realize_key(x) for x in d.payload)
+        return getattr(realize(d.payload), d.kind)()
     if isinstance(d, dict):
         return {realize_key(k): realize(v) for k, v in d.items()}
     if isinstance(d, list):
@@ -190,7 +223,14 @@ def gen_doc(rng, depth, budget, hashable=False):
         elems = [gen_doc(rng, depth - 1, budget, True) if pick < 0.15 else rng.choice((1, 2, 'x', None, 2.5, 'y'))
                  for _ in range(rng.randrange(0, 4))]
         return set(elems)
-    return Gen([gen_doc(rng, depth - 1, budget) for _ in range(rng.randrange(0, 3))])
+    if k < 0.95:
+        return Gen([gen_doc(rng, depth - 1, budget) for _ in range(rng.randrange(0, 3))])
+    kind = rng.choice(('items', 'items', 'keys', 'values', 'frozenset'))
+    if kind == 'frozenset':
+        pick = rng.random()
+        return View(kind, list({gen_doc(rng, 1, budget, True) if pick < 0.4 else rng.choice((1, 2, 'x', None, 'y'))
+                                for _ in range(rng.randrange(0, 4))}))
+    return View(kind, {rng.choice(('a', 'b', 1, None)): gen_doc(rng, depth - 1, budget) for _ in range(rng.randrange(0, 3))})
 
 
 # ---- expression generator ---------------------------------------------------------------
@@ -478,7 +518,9 @@ def run_shard(spec, rec):
                 mon.expression(text, {'a': [1, {'b': 2}], 'c': (3, 4)}, 'interface')
             for doc in ([], {}, [1, [2, [3, {'a': None}]]], {'a': {'b': {'c': [1, 2.5, 'x']}}}, (1, 2), {1, 2},
                         Gen([1, Gen([2])]), {(1, 2): 3}, [{(1, 2)}],
-                        {'s': {1, 2}, 't': (1, [2])}, 'str', 5, None, [[], {}, (), set()]):
+                        {'s': {1, 2}, 't': (1, [2])}, 'str', 5, None, [[], {}, (), set()],
+                        {'pairs': View('items', {'a': 1, 'b': [2]})}, [View('keys', {'a': 1})], View('values', {'a': {'b': 1}}),
+                        {'f': View('frozenset', [1, 'x'])}, [View('frozenset', [(1, 2), ()])], View('items', {})):
                 mon.roundtrip(doc)
                 mon.roundtrip(doc, 'interface')
     finally:
@@ -488,7 +530,7 @@ def run_shard(spec, rec):
 def replay(data, rec):
     mon = Mon(rec)
     try:
-        doc = eval(data['doc'], {'Gen': Gen, 'frozenset': frozenset, 'set': set})
+        doc = eval(data['doc'], {'Gen': Gen, 'View': View, 'frozenset': frozenset, 'set': set})
         if data['kind'] == 'roundtrip':
             mon.roundtrip(doc, data.get('path', 'statement'))
         else:
